@@ -518,14 +518,14 @@ def coq_init(case, res):
             f"{res[1]['rc'] % 256} {r2n}")
 
 
-def eval_all(terms, workdir, per_shard):
+def eval_all(terms, workdir, per_shard, timeout=900):
     """terms: list of Coq expressions; returns the parsed value of each"""
     shards, index = [], []
     for s in range(0, len(terms), per_shard):
         chunk = list(range(s, min(len(terms), s + per_shard)))
         shards.append("\n".join(f"Eval vm_compute in ({terms[j]})." for j in chunk))
         index.append(chunk)
-    outs = coq.eval_shards(workdir, HEADER, shards, timeout=900)
+    outs = coq.eval_shards(workdir, HEADER, shards, timeout=timeout)
     vals = [None] * len(terms)
     for chunk, out in zip(index, outs):
         if len(out) != len(chunk):
@@ -1448,8 +1448,10 @@ def run(tier: str, seed: int, replay: str | None = None) -> int:
                 # heavy init terms first in small shards, the light ones in larger shards
                 heavy = [k for k, i in enumerate(owners) if cases[i]["stream"] == "init"]
                 light = [k for k in range(len(terms)) if k not in set(heavy)]
-                hv = eval_all([terms[k] for k in heavy], wd / "h", max(8, -(-len(heavy) // 14))) if heavy else []
-                lv = eval_all([terms[k] for k in light], wd / "l", 60) if light else []
+                # at most ~40 init cases per shard (a shard of 100+ cases exceeds the per-file time limit on a busy machine)
+                shard_limit = 900 if quick else 2700
+                hv = eval_all([terms[k] for k in heavy], wd / "h", min(40, max(8, -(-len(heavy) // 14))), shard_limit) if heavy else []
+                lv = eval_all([terms[k] for k in light], wd / "l", 60, shard_limit) if light else []
                 allv = {}
                 allv.update(dict(zip(heavy, hv)))
                 allv.update(dict(zip(light, lv)))
